@@ -3,7 +3,7 @@
 (* Trace validation: reads the ndjson trace recorded from the real multisig *)
 (* account (env TRACE), advances the ghost state of SmartAccount.tla by     *)
 (* each recorded step and evaluates every monitor on it.  Violations are    *)
-(* collected (VIOL lines); after a violation the rest of that run is        *)
+(* collected (VIOL lines); after a violation of a property the monitors of that property are        *)
 (* skipped and validation resumes at the next reset event.  `cnt` counts,   *)
 (* per monitor, the steps on which its antecedent held.                     *)
 (***************************************************************************)
@@ -23,20 +23,19 @@ Norm(ev) ==
    log |-> [ver |-> ToSet(ev.log.ver), can |-> {NormCall(c) : c \in ToSet(ev.log.can)},
             enf |-> [j \in DOMAIN ev.log.enf |-> NormCall(ev.log.enf[j])], commit |-> ev.log.commit]]
 
-Init == l = 1 /\ g = GInit /\ dead = FALSE /\ cnt = [m \in Monitors |-> 0]
+Init == l = 1 /\ g = GInit /\ dead = {} /\ cnt = [m \in Monitors |-> 0]
 
 Report(ev, m) == PrintT(<<"VIOL", ToJson([run |-> ev.run, i |-> ev.i, line |-> l, mon |-> m,
-                                          prop |-> PropOf(m), key |-> Key(m, g, ev)])>>)
+                                          prop |-> PropOf(m), key |-> Key(m, g, ev), after |-> dead])>>)
 
 Next ==
   /\ l <= Len(Rec)
   /\ l' = l + 1
   /\ LET raw == Rec[l] IN
-     IF raw.op.op = "reset" THEN g' = GInit /\ dead' = FALSE /\ UNCHANGED cnt
-     ELSE IF dead THEN UNCHANGED <<g, dead, cnt>>
-     ELSE LET ev == Norm(raw)  f == Failing(g, ev)  en == Engaged(g, ev) IN
+     IF raw.op.op = "reset" THEN g' = GInit /\ dead' = {} /\ UNCHANGED cnt
+     ELSE LET ev == Norm(raw)  f == {m \in Failing(g, ev) : PropOf(m) \notin dead}  en == Engaged(g, ev) IN
           /\ \A m \in f : Report(ev, m)
-          /\ dead' = (f # {})
+          /\ dead' = dead \cup {PropOf(m) : m \in f}
           /\ g' = GNext(g, ev)
           /\ cnt' = [m \in Monitors |-> cnt[m] + IF m \in en THEN 1 ELSE 0]
   /\ (l = Len(Rec) => PrintT(<<"DONE", l, ToJson(cnt')>>))
